@@ -13,6 +13,7 @@ import (
 
 	header "github.com/celestiaorg/go-header"
 	"github.com/celestiaorg/go-header/store"
+	"github.com/ipfs/go-datastore"
 	"pgregory.net/rapid"
 
 	"verif/harness/evid"
@@ -26,6 +27,10 @@ import (
 type HandlerSpec struct {
 	Mode   string `json:"mode"`    // ok | error | panic | sleep
 	FailAt int    `json:"fail_at"` // offset into the deleted range of the height at which this handler misbehaves (mod range length); -1 never
+	// Err selects what an "error" handler returns: "" = a plain error; ds_notfound / hdr_notfound = an error wrapping
+	// datastore.ErrNotFound / header.ErrNotFound (a handler that cleans up its own records may well pass that on);
+	// ctx_canceled = context.Canceled.
+	Err string `json:"err,omitempty"`
 }
 
 type DelScenario struct {
@@ -75,6 +80,9 @@ func genDel(t *rapid.T, faulty bool) DelScenario {
 		if faulty && rapid.IntRange(0, 2).Draw(t, "hfaulty") == 0 {
 			h.Mode = rapid.SampledFrom([]string{"error", "panic"}).Draw(t, "hmode")
 			h.FailAt = rapid.IntRange(0, 12).Draw(t, "hfailat")
+			if h.Mode == "error" {
+				h.Err = rapid.SampledFrom([]string{"", "", "ds_notfound", "hdr_notfound", "ctx_canceled"}).Draw(t, "herr")
+			}
 		}
 		s.Handlers = append(s.Handlers, h)
 	}
@@ -268,6 +276,14 @@ func runDel(t *testing.T, s DelScenario) (r08, r14 Result) {
 				if misbehave {
 					if hs.Mode == "panic" {
 						panic(fmt.Sprintf("handler %d panics at height %d", i, height))
+					}
+					switch hs.Err {
+					case "ds_notfound":
+						return fmt.Errorf("handler %d: own record of %d: %w", i, height, datastore.ErrNotFound)
+					case "hdr_notfound":
+						return fmt.Errorf("handler %d: own record of %d: %w", i, height, header.ErrNotFound)
+					case "ctx_canceled":
+						return context.Canceled
 					}
 					return fmt.Errorf("handler %d refuses height %d", i, height)
 				}
